@@ -614,8 +614,124 @@ fn op_bigrest(toks: &[Tok], prop: &str) -> Outcome {
     Outcome { result: w.0, oracle }
 }
 
+/// 35 BIGJUNK: n filler bytes (one repeated value: pattern-free), then a storage-header message, then a suffix; the
+/// search must report n and parsing must give what parsing the message alone gives (n up to beyond 10 MiB / 2^32 with
+/// filler 0, whose buffer is allocated zero-filled)
+fn op_bigjunk(toks: &[Tok], prop: &str) -> Outcome {
+    use dlt_core::parse::{dlt_message, forward_to_next_storage_header, ParsedMessage};
+    let mut r = R::new(toks);
+    let n = r.n() as usize;
+    let fill = r.n() as u8;
+    let m = r.msg();
+    let suffix = r.b();
+    let mut w = W::new();
+    let mut oracle = vec![];
+    let wf = crate::genmsg::wf_message(&m) && m.storage_header.is_some();
+    w.bool(wf);
+    if !wf {
+        return Outcome { result: w.0, oracle };
+    }
+    match guarded(|| m.as_bytes()) {
+        None => w.n(1),
+        Some(bytes) => {
+            w.n(0);
+            let mut buf = vec![0u8; n + bytes.len() + suffix.len()];
+            if fill != 0 {
+                for b in &mut buf[..n] {
+                    *b = fill;
+                }
+            }
+            buf[n..n + bytes.len()].copy_from_slice(&bytes);
+            buf[n + bytes.len()..].copy_from_slice(&suffix);
+            let fw = guarded(|| forward_to_next_storage_header(&buf).map(|(k, rest)| (k, rest.len())));
+            match &fw {
+                Some(Some((k, rl))) => {
+                    w.n(1);
+                    w.n(*k as u128);
+                    w.n(*rl as u128);
+                }
+                Some(None) => w.n(0),
+                None => w.n(4),
+            }
+            let res = guarded(|| dlt_message(&buf, None, true).map(|(rest, pm)| (rest.len(), pm)));
+            match &res {
+                None => w.n(4),
+                Some(Ok((rest, pm))) => {
+                    w.n(0);
+                    crate::ops::w_parsed(&mut w, pm);
+                    w.n(*rest as u128);
+                }
+                Some(Err(e)) => crate::ops::w_parse_err(&mut w, e),
+            }
+            if prop == "C06" || prop == "C02" {
+                if fw != Some(Some((n as u64, bytes.len() + suffix.len()))) {
+                    oracle.push(("first_occurrence".into(), format!("{} pattern-free bytes in front: search reports {:?}", n, fw)));
+                }
+                let ok = matches!(&res, Some(Ok((rest, ParsedMessage::Item(_)))) if *rest == suffix.len());
+                if !ok {
+                    oracle.push(("junk_skipped".into(), format!("{} junk bytes in front of a message: {}", n, match &res { Some(Ok((r, _))) => format!("Ok, rest {}", r), Some(Err(e)) => format!("{:?}", e), None => "panic".into() })));
+                }
+            }
+        }
+    }
+    Outcome { result: w.0, oracle }
+}
+
+/// 36 JUNKCUT: pattern-free junk, then the first k bytes of a storage-header message: incomplete, with a safe hint
+/// (C05 through C06: junk in front does not change the verdict)
+fn op_junkcut(toks: &[Tok], prop: &str) -> Outcome {
+    use dlt_core::parse::{dlt_message, DltParseError};
+    let mut r = R::new(toks);
+    let junk = r.b();
+    let m = r.msg();
+    let k = r.n() as usize;
+    let mut w = W::new();
+    let mut oracle = vec![];
+    let wf = crate::genmsg::wf_message(&m) && m.storage_header.is_some();
+    w.bool(wf);
+    if !wf {
+        return Outcome { result: w.0, oracle };
+    }
+    match guarded(|| m.as_bytes()) {
+        None => w.n(1),
+        Some(bytes) => {
+            w.n(0);
+            let k = k.min(bytes.len().saturating_sub(1));
+            let mut buf = junk.clone();
+            buf.extend_from_slice(&bytes[..k]);
+            let res = guarded(|| dlt_message(&buf, None, true).map(|(rest, pm)| (rest.len(), pm)));
+            match &res {
+                None => w.n(4),
+                Some(Ok((rest, pm))) => {
+                    w.n(0);
+                    crate::ops::w_parsed(&mut w, pm);
+                    w.n(*rest as u128);
+                }
+                Some(Err(e)) => crate::ops::w_parse_err(&mut w, e),
+            }
+            if matches!(prop, "C05" | "C06" | "C19" | "C02") {
+                let missing = bytes.len() - k;
+                match &res {
+                    Some(Err(DltParseError::IncompleteParse { needed })) => {
+                        if let Some(nn) = needed {
+                            // with fewer than 16 bytes in all the parser cannot know where the header starts: hint-free
+                            if nn.get() > missing && buf.len() >= 16 {
+                                oracle.push(("hint_le_missing".into(), format!("junk {} + cut {} of {}: needed {} > missing {}", junk.len(), k, bytes.len(), nn, missing)));
+                            }
+                        }
+                    }
+                    other => oracle.push(("prefix_incomplete".into(), format!("junk {} + cut {} of {}: {}", junk.len(), k, bytes.len(), match other { Some(Ok(_)) => "Ok".to_string(), Some(Err(e)) => format!("{:?}", e), None => "panic".into() }))),
+                }
+            }
+        }
+    }
+    Outcome { result: w.0, oracle }
+}
+
 pub fn run_case5(prop: &str, op: u32, toks: &[Tok]) -> Outcome {
     match op {
+        35 => op_bigjunk(toks, prop),
+        36 => op_junkcut(toks, prop),
         34 => op_bigrest(toks, prop),
         60 => op_specdec(toks, prop),
         61 => op_specenc(toks, prop),
